@@ -1,0 +1,83 @@
+//go:build verif
+
+// Contracts for the deductive verifier under /verif (govc). Comment-only file: it adds no code and is
+// compiled only with the build tag "verif".
+
+package kit
+
+//@ fun contentOf(e JSchemaError) []byte := e.file.content.data
+//@ fun nlOfFile(f *fs.File) Int := (f.content.nl == 10 || f.content.nl == 13) ? f.content.nl : nlsym(f.content.data, len(f.content.data))
+
+//@ func NewJSchemaError
+//@   property C16 C02
+//@   requires e != nil
+//@   ensures result.file == file && result.code == e.Code_ && result.message == e.message && !result.hasIndex && !result.prepared && result.index == 0
+//@   no_panic
+
+//@ func (*JSchemaError).SetIndex
+//@   property C16 C02
+//@   requires e != nil
+//@   modifies e.index, e.hasIndex, e.line, e.column
+//@   ensures e.index == index && e.hasIndex
+//@   ensures e.file == nil ==> e.line == 0 && e.column == 0
+//@   ensures e.file != nil && index < len(e.file.content.data) ==> e.line == 1 + bcount(e.file.content.data, index, nlOfFile(e.file)) && e.column == 1 + bsince(e.file.content.data, index, nlOfFile(e.file)) && e.line >= 1 && e.column >= 1
+//@   ensures e.file != nil && index >= len(e.file.content.data) ==> e.line == 0 && e.column == 0
+//@   no_panic
+
+//@ func (*JSchemaError).preparation
+//@   property C16 C02
+//@   requires e != nil
+//@   modifies e.length, e.nl, e.prepared
+//@   panics when !e.prepared && e.file == nil
+//@   ensures e.prepared
+//@   ensures !old(e.prepared) ==> e.length == len(e.file.content.data) && e.nl == nlOfFile(e.file)
+//@   ensures old(e.prepared) ==> e.length == old(e.length) && e.nl == old(e.nl)
+
+// begin of the line of e.index: 0 or the position just after the closest earlier newline symbol
+//@ func (JSchemaError).lineBeginning
+//@   property C16 C02
+//@   requires e.file != nil
+//@   ensures e.index >= len(e.file.content.data) ==> result == 0
+//@   ensures e.index < len(e.file.content.data) ==> result <= e.index && (result > 0 ==> e.file.content.data[result-1] == e.nl)
+//@   ensures e.index < len(e.file.content.data) ==> (forall j :: result <= j && j < e.index ==> e.file.content.data[j] != e.nl)
+//@   no_panic
+//@   loop#1 invariant i <= e.index && e.index < len(e.file.content.data) && content.data == e.file.content.data
+//@   loop#1 invariant forall j :: i < j && j < e.index ==> e.file.content.data[j] != e.nl
+//@   loop#1 decreases i
+
+//@ func (JSchemaError).lineEnd
+//@   property C16 C02
+//@   requires e.file != nil && e.length == len(e.file.content.data)
+//@   ensures e.index >= len(e.file.content.data) ==> result == 0
+//@   ensures e.index < len(e.file.content.data) ==> result <= len(e.file.content.data) && result + 1 >= e.index
+//@   ensures e.index < len(e.file.content.data) && result < e.index ==> e.index >= 1 && e.file.content.data[e.index-1] != e.nl && e.file.content.data[e.index] == e.nl
+//@   no_panic
+//@   loop#1 invariant e.index <= i && i <= e.length && content.data == e.file.content.data
+//@   loop#1 invariant forall j :: e.index <= j && j < i ==> e.file.content.data[j] != e.nl
+//@   loop#1 decreases e.length - i
+
+// The caret line is only well defined when the byte at the error position is not a blank that lies in the
+// leading blanks of its line while a non-blank byte follows (strings.Repeat would get a negative count).
+//@ pred preparedOK(e *JSchemaError) := e.prepared ==> e.file != nil && e.length == len(e.file.content.data) && e.nl == nlOfFile(e.file)
+//@ pred caretOK(e *JSchemaError) := e.file != nil && e.index <= 9223372036854775807 && (e.index >= len(e.file.content.data) || !(e.file.content.data[e.index] == 32 || e.file.content.data[e.index] == 9 || e.file.content.data[e.index] == 10 || e.file.content.data[e.index] == 13))
+
+//@ func (*JSchemaError).SourceSubString
+//@   property C16 C02
+//@   requires e != nil && preparedOK(e)
+//@   ensures preparedOK(e)
+//@   modifies e.length, e.nl, e.prepared
+//@   no_panic
+
+//@ func (*JSchemaError).pointerToTheErrorCharacter
+//@   property C16 C02
+//@   requires e != nil && caretOK(e) && preparedOK(e)
+//@   ensures preparedOK(e)
+//@   modifies e.length, e.nl, e.prepared
+//@   no_panic
+
+//@ func (*JSchemaError).String
+//@   property C16 C02
+//@   requires e != nil && (e.file != nil && e.hasIndex ==> caretOK(e)) && preparedOK(e)
+//@   assumes API precondition: the position is not a blank inside the leading blanks of a line that continues with a non-blank byte; the file is not replaced after the first rendering
+//@   modifies e.length, e.nl, e.prepared
+//@   no_panic
